@@ -52,13 +52,14 @@ def configs(tier):
     for i in range(8):
         out.append({"spake": "real" if i == 0 else "stub", "reentrant": i % 3 == 1,
                     "faults": i % 4 != 1, "reorder_heavy": i % 2 == 0,
-                    "dilate": i in (2, 5),
+                    "dilate": i in (2, 5), "pipeline": i in (3, 4, 6),
                     "max_msgs": 6 if tier == "quick" else 12})
     # long conversations (11..16 messages each way) on a reordering server
     out.append({"spake": "stub", "faults": True, "reorder_heavy": True,
                 "max_msgs": 16, "min_msgs": 11})
     out.append({"spake": "stub", "faults": False, "reorder_heavy": True,
-                "max_msgs": 16, "min_msgs": 11, "reentrant": True})
+                "max_msgs": 16, "min_msgs": 11, "reentrant": True,
+                "pipeline": True})
     return out
 
 
